@@ -212,6 +212,15 @@ func fieldMapName(structT types.Type, field string) string {
 }
 
 func elemMapNameT(t types.Type) string {
+	// byte and rune are aliases: one heap map per underlying element type
+	if b, ok := t.(*types.Basic); ok {
+		switch b.Kind() {
+		case types.Uint8:
+			return "E!uint8"
+		case types.Int32:
+			return "E!int32"
+		}
+	}
 	return "E!" + mangle(typeName(t))
 }
 
